@@ -252,3 +252,83 @@ theorem multiVerifyUpdate_eq_root (hs : H.Sound) (S : List (Key × VH)) (hc : Ca
   rw [hr, multiVerifyUpdate_sound hs S hc hlen mp hv ops hol r hr]
 
 end Nomt
+
+namespace Nomt
+variable {Node VH : Type} [DecidableEq Node] [DecidableEq VH] (H : Hasher Node VH)
+
+theorem PTree.vpaths_terminals : ∀ (T : PTree Node VH) (pos : List Bool) (off : Nat),
+    (T.vpaths pos off).map (fun vp => vp.terminal) = (T.mpaths pos).map (fun p => p.terminal)
+  | .tip _ _ _, _, _ => rfl
+  | .fork _ _ l r, _, _ => by
+    simp only [PTree.vpaths, PTree.mpaths, List.map_append, PTree.vpaths_terminals l, PTree.vpaths_terminals r]
+
+/-- **the multi-proof update never panics** on an accepted multi-proof whose leaf keys are `L`-bit keys
+and whose verified depths do not exceed `L`, for any ops with `L`-bit keys -/
+theorem multiVerifyUpdate_no_panic (L : Nat) (mp : MultiProof Node VH) (root : Node) (v : VerifiedMulti Node VH)
+    (hv : verifyMulti H mp root = .ok v)
+    (hleaf : ∀ vp ∈ v.inner, ∀ k x, vp.terminal = .leaf k x → k.length = L)
+    (hdepth : ∀ vp ∈ v.inner, vp.depth ≤ L)
+    (ops : List (Key × Option VH)) (hol : ∀ o ∈ ops, o.1.length = L) :
+    (multiVerifyUpdate H L v ops).isPanic = false := by
+  obtain ⟨T, hT, _⟩ := verifyMulti_tree H mp root v hv
+  exact (multiVerifyUpdate_spec ⟨hT, hleaf, hdepth⟩ ops hol).1
+
+/-- the same with the length conditions stated on the proof object: leaf keys of length `L`, terminator
+positions of length `≤ L` -/
+theorem multiVerifyUpdate_no_panic_of_paths (L : Nat) (mp : MultiProof Node VH) (root : Node)
+    (v : VerifiedMulti Node VH) (hv : verifyMulti H mp root = .ok v)
+    (hleaf : ∀ p ∈ mp.paths, ∀ k x, p.terminal = .leaf k x → k.length = L)
+    (hterm : ∀ p ∈ mp.paths, ∀ pos, p.terminal = .terminator pos → pos.length ≤ L)
+    (ops : List (Key × Option VH)) (hol : ∀ o ∈ ops, o.1.length = L) :
+    (multiVerifyUpdate H L v ops).isPanic = false := by
+  obtain ⟨T, hT, hmp⟩ := verifyMulti_tree H mp root v hv
+  have hterms : ∀ vp ∈ v.inner, vp.terminal = .terminator [] ∨ ∃ p ∈ mp.paths, p.terminal = vp.terminal := by
+    intro vp hvp
+    by_cases hne : mp.paths = []
+    · left
+      obtain ⟨_, r, hr, _, _, hinner, _⟩ := verifyMulti_ok H mp root v hv
+      rw [hne] at hr
+      simp only [verifyFuel, maxPathLen, verifyRange] at hr
+      injection hr with hr
+      rw [hinner, ← hr] at hvp
+      simp only [List.mem_singleton] at hvp
+      rw [hvp]
+    · right
+      have h1 : vp.terminal ∈ (v.inner.map (fun vp => vp.terminal)) := List.mem_map_of_mem hvp
+      rw [hT.inner, PTree.vpaths_terminals, hmp hne] at h1
+      obtain ⟨p, hp, hpe⟩ := List.mem_map.1 h1
+      exact ⟨p, hp, hpe⟩
+  have hdp : ∀ vp ∈ v.inner, vp.depth ≤ vp.terminal.path.length := by
+    intro vp hvp
+    rw [hT.inner] at hvp
+    obtain ⟨h1, h2, _⟩ := PTree.vpaths_route T [] 0 hT.al vp hvp
+    have := h1.length_le
+    omega
+  apply multiVerifyUpdate_no_panic H L mp root v hv _ _ ops hol
+  · intro vp hvp k x ht
+    rcases hterms vp hvp with h | ⟨p, hp, hpe⟩
+    · rw [ht] at h; cases h
+    · exact hleaf p hp k x (by rw [hpe, ht])
+  · intro vp hvp
+    have hd := hdp vp hvp
+    rcases hterms vp hvp with h | ⟨p, hp, hpe⟩
+    · rw [h] at hd; simp only [Terminal.path, List.length_nil] at hd; omega
+    · cases ht : vp.terminal with
+      | leaf k x =>
+        have := hleaf p hp k x (by rw [hpe, ht])
+        rw [ht] at hd; simp only [Terminal.path] at hd; omega
+      | terminator pos =>
+        have := hterm p hp pos (by rw [hpe, ht])
+        rw [ht] at hd; simp only [Terminal.path] at hd; omega
+
+/-- the same under the verifier's trust assumption (the root is the root of a canonical set of `L`-bit
+keys): nothing has to be assumed about the proof object -/
+theorem multiVerifyUpdate_no_panic_canon (hs : H.Sound) (L : Nat) (S : List (Key × VH)) (hc : Canon L 0 S)
+    (hlen : ∀ kv ∈ S, kv.1.length = L) (mp : MultiProof Node VH) (v : VerifiedMulti Node VH)
+    (hv : verifyMulti H mp (nodeAt H L 0 S) = .ok v)
+    (ops : List (Key × Option VH)) (hol : ∀ o ∈ ops, o.1.length = L) :
+    (multiVerifyUpdate H L v ops).isPanic = false := by
+  obtain ⟨T, hT, _⟩ := verifyMulti_tree H mp _ v hv
+  exact (multiVerifyUpdate_spec (MCtx.of_canon hs S hc hlen mp hv hT) ops hol).1
+
+end Nomt
